@@ -66,6 +66,19 @@ fn small_call_sets() -> Vec<(&'static str, CallSet)> {
     d.records[7].chrom = 1;
     d.push_gts(&["0|1", "1/1", "1|0"]);
     out.push(("unusual-records-3-samples", d));
+    // (e) wide and long names: 300 samples (more than 255), 300 contigs, a sample name and a contig
+    // name of 300 bytes, positions beyond 2^31 are not legal VCF, so up to 2^31 - 1
+    let mut e = CallSet::new(300);
+    e.samples[7] = "S".repeat(300);
+    e.contigs = (0..300).map(|i| if i == 290 { "c".repeat(300) } else { format!("ctg{i}") }).collect();
+    for r in 0..24usize {
+        let gts: Vec<String> = (0..300).map(|j| ["0/0", "0/1", "1|1", "1/0", "./.", "0|0"][(j * (r + 1) + r) % if r % 6 == 0 { 6 } else { 4 }].to_string()).collect();
+        e.push_gts(&gts);
+        let last = e.records.len() - 1;
+        e.records[last].chrom = (r * 13) % 300;
+        e.records[last].pos = [1usize, 255, 256, 65_536, 16_777_217, 2_147_483_647][r % 6];
+    }
+    out.push(("wide-300-samples-300-contigs", e));
     out
 }
 
@@ -159,7 +172,7 @@ fn observe_orders(d: usize) -> (usize, usize, bool) {
 
 pub fn run(tier: Tier) -> i32 {
     let mut rep = Report::new("C12", tier, "exploration");
-    rep.rule = "configuration grid, enumerated completely: call sets {4 small incl. missing / multiallelic / two contigs / extra fields / monomorphic records / records without FORMAT or without a GT key, one of 2 600 records (~150 KiB, several 64 KiB BGZF blocks)} x container {vcf, vcf.gz, bcf, raw bcf} x BGZF layout (12: single block, one record per block, 1/7/64/4096/65280-byte blocks, empty block in front/middle/end, stored blocks - for the large call set with first blocks of 8, 16, 32 and 64 KiB compressed size -, no EOF marker) x transport {path, stdin} (small call sets also: real pipe, FIFO by path, /dev/stdin; and ten file names) x --threads 1..16 x 2 repetitions (fresh process = fresh hash seeds) x 2 sample configurations; every run's stdout and exit status must equal the canonical run (plain VCF by path, 1 thread). L1: the same containers through the real reader construction with set_threads, and the hash-order observer. Non-trivial = compressed multi-block container with >=2 threads, or stdin transport.".into();
+    rep.rule = "configuration grid, enumerated completely: call sets {5 small incl. one with 300 samples, 300 contigs, 300-byte names and positions up to 2^31-1, missing / multiallelic / two contigs / extra fields / monomorphic records / records without FORMAT or without a GT key, one of 2 600 records (~150 KiB, several 64 KiB BGZF blocks)} x container {vcf, vcf.gz, bcf, raw bcf} x BGZF layout (12: single block, one record per block, 1/7/64/4096/65280-byte blocks, empty block in front/middle/end, stored blocks - for the large call set with first blocks of 8, 16, 32 and 64 KiB compressed size -, no EOF marker) x transport {path, stdin} (small call sets also: real pipe, FIFO by path, /dev/stdin; and ten file names) x --threads 1..16 x 2 repetitions (fresh process = fresh hash seeds) x 2 sample configurations; every run's stdout and exit status must equal the canonical run (plain VCF by path, 1 thread). L1: the same containers through the real reader construction with set_threads, and the hash-order observer. Non-trivial = compressed multi-block container with >=2 threads, or stdin transport.".into();
     let scratch = Scratch::new("c12");
     let smalls = small_call_sets();
     let big = big_call_set();
@@ -289,6 +302,62 @@ pub fn run(tier: Tier) -> i32 {
         ("expected", J::s("stdout and exit status byte-identical to the plain-VCF-by-path run with 1 thread")),
     ]));
 
+    // thread counts beyond the 1..16 grid, around 32 and 256 (one layout, second small call set)
+    {
+        let counts = [17usize, 31, 32, 33, 64, 255, 256, 257, 512];
+        let mut tj: Vec<(Container, usize, bool)> = Vec::new();
+        for c in Container::all() {
+            for &t in &counts {
+                for stdin in [false, true] {
+                    tj.push((c, t, stdin));
+                }
+            }
+        }
+        // run one after the other: hundreds of inflater threads per process, times a 16-way pool, would
+        // exhaust the sandbox's thread limit (a refusal to spawn a thread is the harness's doing and is
+        // counted as inconclusive, never as a verdict)
+        let res: Vec<Option<Viol>> = tj.iter().map(|&(c, t, stdin)| {
+            let v = Variant { set: 1, container: c, layout: Layout::Fixed(64), stdin, threads: t, config: 0, rep: 0 };
+            // (hundreds of thread stacks need more address space than the default cap of the driver)
+            let bytes = render(sets[1].1, c, &Layout::Fixed(64));
+            let ts = t.to_string();
+            let limits = crate::cli::Limits { wall_s: 60, mem_bytes: 48 << 30 };
+            let o = if stdin {
+                crate::cli::run_sfs_env(&["create", "--threads", &ts], Stdin::Bytes(&bytes), &scratch, &[], &limits)
+            } else {
+                let path = scratch.file(c.suffix(), &bytes);
+                let o = crate::cli::run_sfs_env(&["create", "--threads", &ts, path.to_str().unwrap()], Stdin::Null, &scratch, &[], &limits);
+                let _ = std::fs::remove_file(path);
+                o
+            };
+            let can = &canon[1][0];
+            if o.stderr_str().contains("failed to spawn thread") {
+                rep.inconclusive += 1;
+                return None;
+            }
+            if o.code == can.code && o.signal == can.signal && o.stdout == can.stdout {
+                None
+            } else {
+                Some((
+                    format!("C12|cli|differs-from-canonical|{}|threads-{}", c.name(), if t % 256 == 0 { "multiple-of-256" } else { "beyond-16" }),
+                    format!("{} as {} with --threads {t} ({}): {} {:?}", sets[1].0, c.name(), if stdin { "stdin" } else { "path" }, o.status_str(), o.stderr_str().trim()),
+                    variant_j(&v, sets[1].0),
+                ))
+            }
+        }).collect();
+        for v in res.into_iter().flatten() {
+            rep.violation(v.0, v.1, v.2);
+        }
+        rep.part(Part {
+            name: "cli: thread counts beyond 16".into(),
+            evaluations: tj.len() as u64,
+            nontrivial: tj.len() as u64,
+            note: format!("--threads in {counts:?} x 4 containers x {{path, stdin}}: identical to the canonical run"),
+            exhaustive: true,
+            extra: vec![],
+        });
+    }
+
     // file names: the container is decided by content, whatever the path is called
     const NAMES: [&str; 10] = ["in", "in.dat", "in.vcf", "in.vcf.gz", "in.bcf", "in.gz", "in.bgz", "IN.VCF", "in.txt", "in.bcf.vcf"];
     let mut nj: Vec<(usize, Container, usize, usize)> = Vec::new();
@@ -417,6 +486,10 @@ pub fn run(tier: Tier) -> i32 {
     // L1: reader construction with set_threads over in-memory containers
     let mut lj: Vec<(usize, Container, Layout, usize)> = Vec::new();
     for si in 0..sets.len() - 1 {
+        // (the in-memory site reader of the harness addresses samples by their default names)
+        if !sets[si].1.samples.iter().enumerate().all(|(i, n)| *n == format!("s{i}")) {
+            continue;
+        }
         for c in Container::all() {
             let layouts = if c.compressed() { all_layouts() } else { vec![Layout::Single] };
             for l in layouts {
